@@ -43,7 +43,7 @@ FS2K = ["--max-field-sensitivity-array-size", "2048"]  # Vec<Wall>/Vec<Space> bu
 CHECKS["C13"] = {
     "title": "ray casting: accelerated = exhaustive; exact geometry",
     "outside": [
-        "BVH::build when the element count exceeds max_num_elements (the split path: generate_node_list / partition_elements_by_centroid / multi-level build_from_node_list): symbolic execution of 2 elements with max=1 did not finish in 500 s even with concrete boxes; termination for coinciding centres is therefore NOT decided",
+        "accelerated == exhaustive for trees with inner nodes (generate_node_list / multi-level build_from_node_list / traversal of inner nodes): symbolic execution of BVH::build with 2 elements and max=1 did not finish in 500 s even with concrete boxes; termination IS decided, through the one-step partition lemma for nodes of 2 and 3 elements",
         "polygons with more than 3 corners through point_in_poly; poses with non-zero tilt/azimuth (sin/cos are not interpreted by CBMC)",
         "off-grid coordinates; rays whose origin lies exactly on a slab face with a zero direction component (0*inf = NaN)",
     ],
@@ -54,6 +54,10 @@ CHECKS["C13"] = {
          "timeout_quick": 900, "functions": ["BVH::build", "BVH::intersects", "AABB::intersects", "<[T] as Bounded>::aabb", "PreorderIter::next"]},
         {"name": "c13::bvh_leaf2", "tier": "thorough", "bound": "2 boxes, same grids, single leaf", "kani_args": NOOVF, "cbmc_args": FS,
          "functions": ["BVH::build", "BVH::intersects", "AABB::intersects", "AABB::join", "PreorderIter::next"]},
+        {"name": "c13p::partition_progress_2", "bound": "2 boxes with integer centres in [-2,2]^3 (coinciding centres included) and half-sizes {1,2}", "kani_args": NOOVF, "cbmc_args": FS,
+         "functions": ["BVH::partition_elements_by_centroid"]},
+        {"name": "c13p::partition_progress_3", "bound": "3 boxes, same grid", "kani_args": NOOVF, "cbmc_args": FS, "timeout_quick": 1200,
+         "functions": ["BVH::partition_elements_by_centroid"]},
         {"name": "c13::geo::aabb_slab", "witness": True, "bound": "box corners integers in [-4,7], origin integers in [-6,6]^3, doubled direction in {-2..2}^3 minus 0", "kani_args": NOOVF,
          "functions": ["AABB::intersects"]},
         {"name": "c13::geo::aabb_join_monotone", "bound": "2 grid boxes, grid ray", "kani_args": NOOVF, "cbmc_args": FS,
